@@ -370,6 +370,50 @@ def n6_unwrap_or_else(body, log):
         log.append("N6")
 
 
+def n10_map_collect(body, log):
+    """N10: `X.iter().map(|P| BODY).collect::<Vec<T>>()`  ==>
+            `{ let mut __c: Vec<T> = Vec::new(); for P in X.iter() { __c.push(BODY); } __c }`
+    (definition of Iterator::map + collect into a Vec; also for iter_mut())."""
+    while True:
+        m = mask(body)
+        hit = re.search(r"\.\s*(iter|iter_mut)\s*\(\s*\)\s*\.\s*map\s*\(", m)
+        if not hit:
+            return body
+        dot = hit.start()
+        rs = _recv_start(m, dot)
+        recv = re.sub(r"\s+", "", body[rs:dot])
+        itk = hit.group(1)
+        open_p = hit.end() - 1
+        close_p = match_close(m, open_p)
+        ci = skip_ws(m, open_p + 1)
+        if m[ci] != "|":
+            raise Unsupported("N10: argument of map is not a closure literal")
+        ps, pe, bs, be = _closure_at(m, ci)
+        if skip_ws(m, be) != close_p:
+            raise Unsupported("N10: unexpected tokens after closure in map")
+        tail = re.match(r"\s*\.\s*collect\s*::\s*<\s*Vec\s*<", m[close_p + 1:])
+        if not tail:
+            raise Unsupported("N10: map(..) not followed by collect::<Vec<T>>()")
+        ts = close_p + 1 + tail.end() - 4  # offset of 'Vec<'
+        lt = m.index("<", ts)
+        from rstok import skip_angle
+        te = skip_angle(m, lt)          # after the '>' closing Vec<..>
+        ty = body[ts:te]
+        k = skip_ws(m, te)
+        if m[k] != ">":
+            raise Unsupported("N10: malformed collect turbofish")
+        k = skip_ws(m, k + 1)
+        if m[k] != "(":
+            raise Unsupported("N10: collect without call parens")
+        end = match_close(m, k) + 1
+        param = body[ps:pe].strip()
+        cbody = body[bs:be]
+        _forbid_control(m[bs:be], "N10")
+        new = "{ let mut __c: %s = Vec::new(); for %s in %s.%s() { __c.push(%s); } __c }" % (ty, param, recv, itk, cbody)
+        body = body[:rs] + new + body[end:]
+        log.append("N10")
+
+
 RULES = {
     "N1": n1_map_with_mut,
     "N2": n2_for_each,
@@ -378,10 +422,11 @@ RULES = {
     "N5": n5_bool_and,
     "N6": n6_unwrap_or_else,
     "N8": n8_guard_arms,
+    "N10": n10_map_collect,
 }
 
 # order matters: N8 restructures arms first, N4 then wraps guarded blocks, then closures are inlined
-DEFAULT_ORDER = ["N8", "N4", "N1", "N2", "N3", "N5"]
+DEFAULT_ORDER = ["N8", "N4", "N1", "N2", "N10", "N3", "N5"]
 
 
 def normalise(body, rules=None):
